@@ -631,18 +631,63 @@ def ops_checks(ctx, N, limit):
         ctx.mismatch("C12.Model.kalman_ops vs Kalman.prior_to_filtered/filtered_to_forecast/update sequences", meta[order[i]][0], meta[order[i]][1])
 
 
+def gen_riccati_model(rng):
+    """model on which the dual Riccati equation has a stabilising solution: R = HH' positive definite, and every state
+    observed when A is mildly unstable"""
+    d = gen_model(rng, kindA=rng.choice(["stable", "stable", "unstable"]))
+    if d["kindH"] != "full" or d["l"] < d["k"]:
+        d["l"] = max(d["l"], d["k"])
+        d["H"] = [[Fraction(int(i == j)) * Fraction(rng.randint(1, 4), 2) for j in range(d["l"])] for i in range(d["k"])]
+    if d["kindA"] == "unstable":
+        d["G"] = [[x if x != 0 else Fraction(1, 2) for x in r] for r in d["G"]]
+    return d
+
+
+STAT_TYPE = "nat * nat * nat * nat * Qmat * Qmat * Qmat * Qmat * Qmat * Qmat * Q * Q"
+STAT_OK = ("fun c => let '(n, m, k, l, A, C, G, H, Sg, Kg, tolK, tolS) := c in "
+           "osome (Mabs tolK) (stationary_K n k l A G H Sg) Kg && "
+           "match update n m k l A C G H (mzero n 1, Sg) (mzero k 1) with Some a => Mabs tolS (snd a) Sg | None => false end")
+
+
+def check_stationary_pair(ctx, d, S, K, inp, what):
+    """oracle for a pair (Sigma_inf, K_inf) claimed for model d: fixed point of the covariance update of THIS model,
+    K = A Sigma G'(G Sigma G' + R)^-1, Sigma symmetric PSD. Returns the Coq case literal (or None)."""
+    Sf, A, C, G, H = fm(S), d["A"], d["C"], d["G"], d["H"]
+    if len(Sf) != d["n"] or any(len(r) != d["n"] for r in Sf) or np.asarray(K).shape != (d["n"], d["k"]):
+        ctx.fail("stationary_fixed_point", what + ": Sigma_infinity / K_infinity have the wrong shape for this model", inp,
+                 [np.asarray(S).tolist(), np.asarray(K).tolist()], None)
+        return None
+    R = mm(H, mt(H)); Qm = mm(C, mt(C))
+    F = madd(mm(mm(G, Sf), mt(G)), R)
+    Fi = fsolve(F, ident(d["k"]))
+    if Fi is None:
+        ctx.fail("stationary_fixed_point", what + ": G Sigma_inf G' + R singular", inp, np.asarray(S).tolist(), None)
+        return None
+    M = mm(mm(Sf, mt(G)), Fi)
+    Snext = madd(mm(mm(A, msub(Sf, mm(M, mm(G, Sf)))), mt(A)), Qm)
+    # Sigma_infinity comes from an iteration stopped at 1e-10: residual of the fixed-point equation within 1e-7 of its size
+    tolS = Fraction(1e-7 * (1.0 + float(ninf(Sf))))
+    if not mabs(S, Snext, tolS):
+        ctx.fail("stationary_fixed_point", what + ": Sigma_infinity is not a fixed point of the covariance update of its own model", inp,
+                 np.asarray(S).tolist(), fl(Snext))
+    Kex = mm(A, M)
+    # K is one product and one inverse away from Sigma_infinity: forward error u ||A Sigma G'|| ||F^-1|| (1 + cond F)
+    u = U0 * 8 * max(d["n"], d["k"], d["l"])
+    tolK = tolq(u * float(ninf(mm(mm(A, Sf), mt(G)))) * float(ninf(Fi)) * (1.0 + float(ninf(F) * ninf(Fi))), Kex)
+    ctx.count("stationary_values:K " + tol_class(tolK, Kex))
+    if not mabs(K, Kex, tolK):
+        ctx.fail("stationary_gain", what + ": K_infinity != A Sigma G'(G Sigma G' + R)^-1", dict(inp, tol=float(tolK)), np.asarray(K).tolist(), fl(Kex))
+    check_psd(ctx, S, inp, "Sigma_infinity", tol=float(tolS))
+    return tup(dims(d), qm(A), qm(C), qm(G), qm(H), qm(np.asarray(S).tolist()), qm(np.asarray(K).tolist()), qlit(tolK), qlit(tolS))
+
+
 def stationary_checks(ctx, N):
     from quantecon import Kalman
     cases, meta = [], []
     tries = 0
     while len(cases) < N and tries < 10 * N:
         tries += 1
-        d = gen_model(ctx.rng, kindA=ctx.rng.choice(["stable", "stable", "unstable"]))
-        if d["kindH"] != "full" or d["l"] < d["k"]:     # R = HH' positive definite
-            d["l"] = max(d["l"], d["k"])
-            d["H"] = [[Fraction(int(i == j)) * Fraction(ctx.rng.randint(1, 4), 2) for j in range(d["l"])] for i in range(d["k"])]
-        if d["kindA"] == "unstable":      # detectability: every state observed
-            d["G"] = [[x if x != 0 else Fraction(1, 2) for x in r] for r in d["G"]]
+        d = gen_riccati_model(ctx.rng)
         inp = model_json(d)
         try:
             with warnings.catch_warnings():
@@ -658,39 +703,148 @@ def stationary_checks(ctx, N):
             continue
         ctx.case(("stationary_values", str(inp)), nontrivial=(d["n"] >= 2))
         ctx.count("stationary_values:A=" + d["kindA"])
-        # oracle: (Sigma_inf, K_inf) is a fixed point of update, K_inf = A Sigma G' (G Sigma G' + R)^-1, Sigma PSD
-        Sf, A, C, G, H = fm(S), d["A"], d["C"], d["G"], d["H"]
-        R = mm(H, mt(H)); Qm = mm(C, mt(C))
-        F = madd(mm(mm(G, Sf), mt(G)), R)
-        Fi = fsolve(F, ident(d["k"]))
-        if Fi is None:
-            ctx.fail("stationary_fixed_point", "G Sigma_inf G' + R singular", inp, S.tolist(), None)
-            continue
-        M = mm(mm(Sf, mt(G)), Fi)
-        Snext = madd(mm(mm(A, msub(Sf, mm(M, mm(G, Sf)))), mt(A)), Qm)
-        # Sigma_infinity comes from an iteration stopped at 1e-10: residual of the fixed-point equation within 1e-7 of its size
-        tolS = Fraction(1e-7 * (1.0 + float(ninf(Sf))))
-        if not mabs(S, Snext, tolS):
-            ctx.fail("stationary_fixed_point", "Sigma_infinity is not a fixed point of the covariance update", inp, S.tolist(), fl(Snext))
-        Kex = mm(A, M)
-        # K is one product and one inverse away from Sigma_infinity: forward error u ||A Sigma G'|| ||F^-1|| (1 + cond F)
-        u = U0 * 8 * max(d["n"], d["k"], d["l"])
-        tolK = tolq(u * float(ninf(mm(mm(A, Sf), mt(G)))) * float(ninf(Fi)) * (1.0 + float(ninf(F) * ninf(Fi))), Kex)
-        ctx.count("stationary_values:K " + tol_class(tolK, Kex))
-        if not mabs(K, Kex, tolK):
-            ctx.fail("stationary_gain", "K_infinity != A Sigma G'(G Sigma G' + R)^-1", dict(inp, tol=float(tolK)), K.tolist(), fl(Kex))
+        lit = check_stationary_pair(ctx, d, S, K, inp, "stationary_values()")
         if S2 is not S or K2 is not K:
             ctx.fail("stationary_cache", "Sigma_infinity/K_infinity properties do not return the computed values", inp, None, None)
-        check_psd(ctx, S, inp, "Sigma_infinity", tol=float(tolS))
-        cases.append(tup(dims(d), qm(A), qm(C), qm(G), qm(H), qm(S.tolist()), qm(K.tolist()), qlit(tolK), qlit(tolS)))
-        meta.append(inp)
-    ok = ("fun c => let '(n, m, k, l, A, C, G, H, Sg, Kg, tolK, tolS) := c in "
-          "osome (Mabs tolK) (stationary_K n k l A G H Sg) Kg && "
-          "match update n m k l A C G H (mzero n 1, Sg) (mzero k 1) with Some a => Mabs tolS (snd a) Sg | None => false end")
-    bad = ctx.coq_check("kalman_stationary_values", IMPORTS, "nat * nat * nat * nat * Qmat * Qmat * Qmat * Qmat * Qmat * Qmat * Q * Q", ok,
-                        cases, chunk=max(1, len(cases) // 6), preamble=PRE)
+        if lit is not None:
+            cases.append(lit)
+            meta.append(inp)
+    bad = ctx.coq_check("kalman_stationary_values", IMPORTS, STAT_TYPE, STAT_OK, cases, chunk=max(1, len(cases) // 6), preamble=PRE)
     for i in bad:
         ctx.mismatch("C12.Model.stationary_K / update fixed point vs Kalman.stationary_values", meta[i])
+
+
+def multi_object_checks(ctx, N):
+    """two or three Kalman / LinearStateSpace objects with DIFFERENT models alive together, operations interleaved
+    (update, stationary_values, and the lazy readers Sigma_infinity, K_infinity, stationary_coefficients,
+    stationary_innovation_covar, whitener_lss): every value read from an object is checked against ITS OWN model
+    (fixed-point oracle, model's stationary_K / stationary_coefficients) and against an explicit solve on a separate object."""
+    from quantecon import Kalman
+    pair_cases, pair_meta, coef_cases, coef_meta = [], [], [], []
+    for ci in range(N):
+        nobj = ctx.rng.choice([2, 2, 3])
+        ds, refs = [], []
+        tries = 0
+        while len(ds) < nobj and tries < 40:
+            tries += 1
+            d = gen_riccati_model(ctx.rng)
+            if ds and ctx.rng.random() < 0.5:       # same shapes as the first model, different numbers: a stale value would fit
+                d2 = gen_riccati_model(ctx.rng)
+                if (d2["n"], d2["k"]) != (ds[0]["n"], ds[0]["k"]):
+                    continue
+                d = d2
+            try:
+                with warnings.catch_warnings():
+                    warnings.simplefilter("ignore")
+                    Sr, Kr = Kalman(mk_lss(d)).stationary_values()       # explicit solve on a separate object
+            except ValueError:
+                continue
+            if not (np.all(np.isfinite(Sr)) and np.all(np.isfinite(Kr))):
+                continue
+            ds.append(d); refs.append((Sr.copy(), Kr.copy()))
+        if len(ds) < 2:
+            continue
+        nobj = len(ds)
+        sss = [mk_lss(d) for d in ds]
+        kns = [Kalman(ss, npm(d["mu0"]), npm(d["S0"])) for ss, d in zip(sss, ds)]
+        # script: a solve on one object, then lazy reads on the others, interleaved with updates
+        first = ctx.rng.randrange(nobj)
+        script = [("stationary_values", first)]
+        readers = ["Sigma_infinity", "K_infinity", "stationary_coefficients_ma", "stationary_coefficients_var",
+                   "stationary_innovation_covar", "whitener_lss", "update", "stationary_values"]
+        for o in [i for i in range(nobj) if i != first] + [ctx.rng.randrange(nobj) for _ in range(ctx.rng.randint(2, 6))]:
+            script.append((ctx.rng.choice(readers[:6]) if len(script) <= nobj else ctx.rng.choice(readers), o))
+        inp = {"objects": [model_json(d) for d in ds], "script": [[op, o] for op, o in script]}
+        ctx.case(("multi_object", str(inp)), nontrivial=True)
+        ctx.count("multi_object:objects=%d" % nobj)
+        for step, (op, o) in enumerate(script):
+            d, kn, (Sr, Kr) = ds[o], kns[o], refs[o]
+            n, k = d["n"], d["k"]
+            sin = {"object": o, "operation": op, "step": step, "model": model_json(d), "script": inp["script"],
+                   "other_models": [model_json(x) for i, x in enumerate(ds) if i != o]}
+            ctx.count("multi_object:" + op)
+            try:
+                with warnings.catch_warnings():
+                    warnings.simplefilter("ignore")
+                    if op == "update":
+                        try:
+                            kn.update(npm(fm(fl(rmat(ctx.rng, k, 1, -8, 8, 4)))))
+                        except np.linalg.LinAlgError:
+                            pass
+                        continue
+                    if op == "stationary_values":
+                        S, K = kn.stationary_values()
+                    elif op == "whitener_lss":
+                        w = kn.whitener_lss()
+                        S, K = kn.Sigma_infinity, kn.K_infinity
+                        KG = np.asarray(w.A)[n:2 * n, :n]
+                        if np.asarray(w.A).shape != (2 * n + d["l"], 2 * n + d["l"]) or not mabs(KG, mm(fm(np.asarray(K)), d["G"]), Fraction(1e-9 * (1.0 + float(np.max(np.abs(KG)))))):
+                            ctx.fail("stationary_lazy", "whitener_lss is not built from this model's K_infinity", sin, np.asarray(w.A).tolist(), None)
+                    else:
+                        S, K = kn.Sigma_infinity, kn.K_infinity
+                    V = kn.stationary_innovation_covar() if op == "stationary_innovation_covar" else None
+                    jco = ctx.rng.randint(0, 4)
+                    co = kn.stationary_coefficients(jco, "var" if op.endswith("var") else "ma") if op.startswith("stationary_coefficients") else None
+            except Exception as e:       # a reader of stationary quantities must not raise on a model whose explicit solve succeeds
+                ctx.fail("stationary_lazy", "%s raised %s: %s" % (op, type(e).__name__, str(e)[:200]), sin, None, None)
+                continue
+            # whatever route produced them, (S, K) must be THIS model's stationary pair
+            lit = check_stationary_pair(ctx, d, S, K, sin, "object %d after %s" % (o, op))
+            if np.asarray(S).shape == Sr.shape and (not mabs(S, fm(Sr), Fraction(1e-7 * (1.0 + float(np.max(np.abs(Sr)))))) or
+                                                    not mabs(K, fm(Kr), Fraction(1e-7 * (1.0 + float(np.max(np.abs(Kr))))))):
+                ctx.fail("stationary_lazy", "Sigma_infinity/K_infinity read from the object differ from an explicit solve of its own model",
+                         sin, [np.asarray(S).tolist(), np.asarray(K).tolist()], [Sr.tolist(), Kr.tolist()])
+            if lit is not None:
+                pair_cases.append(lit); pair_meta.append(sin)
+            if op.startswith("stationary_coefficients") or op == "stationary_innovation_covar":
+                Kf, A, G = fm(np.asarray(K)), d["A"], d["G"]
+                if np.asarray(K).shape != (n, k):
+                    continue
+                u = U0 * 8 * max(n, k)
+                if op == "stationary_innovation_covar":
+                    ex = madd(mm(mm(G, fm(np.asarray(S))), mt(G)), mm(d["H"], mt(d["H"])))
+                    tol = tolq(u * 4 * float(ninf(mm(mm(mabsval(G), mabsval(fm(np.asarray(S)))), mabsval(mt(G))))), ex)
+                    if not mabs(V, ex, tol):
+                        ctx.fail("stationary_lazy", "stationary_innovation_covar != G Sigma_inf G' + R of its own model", sin, np.asarray(V).tolist(), fl(ex))
+                    coef_cases.append(tup(dims(d), qm(A), qm(G), qm(d["H"]), qm(np.asarray(S).tolist()), qm(Kf), "0%nat", "false",
+                                          "[" + qm(np.asarray(V).tolist()) + "]", qlist([tol]), "true"))
+                    coef_meta.append(sin)
+                    continue
+                var = op.endswith("var")
+                j = jco
+                Pm = msub(A, mm(Kf, G)) if var else A
+                P = Pm if var else ident(n)
+                Pa_m = madd(mabsval(A), mm(mabsval(Kf), mabsval(G))) if var else mabsval(A)
+                Pa = Pa_m if var else ident(n)
+                exs = [mm(G, Kf) if var else ident(k)]
+                tols = [tolq(u * 2 * float(ninf(mm(mabsval(G), mabsval(Kf)))), exs[0])]
+                for i in range(1, j + 1):
+                    exs.append(mm(mm(G, P), Kf))
+                    tols.append(tolq(u * (i + 3) * float(ninf(mm(mm(mabsval(G), Pa), mabsval(Kf)))), exs[-1]))
+                    P = mm(P, Pm); Pa = mm(Pa, Pa_m)
+                if len(co) != j + 1 or any(not mabs(c_, e_, t_) for c_, e_, t_ in zip(co, exs, tols)):
+                    ctx.fail("stationary_lazy", "stationary_coefficients(%d, %s) are not G P^i K of its own model" % (j, "var" if var else "ma"),
+                             sin, [np.asarray(c_).tolist() for c_ in co], [fl(e_) for e_ in exs])
+                else:
+                    coef_cases.append(tup(dims(d), qm(A), qm(G), qm(d["H"]), qm(np.asarray(S).tolist()), qm(Kf), "%d%%nat" % j, blit(var),
+                                          "[" + "; ".join(qm(np.asarray(c_).tolist()) for c_ in co) + "]", qlist(tols), "false"))
+                    coef_meta.append(sin)
+        # the LinearStateSpace objects are still what they were
+        for o, (ss, d) in enumerate(zip(sss, ds)):
+            mx0, _, Sx0, _ = next(ss.moment_sequence())
+            if not (mabs(mx0, d["mu0"], 0) and mabs(Sx0, d["S0"], 0) and mabs(ss.A, d["A"], 0) and mabs(ss.G, d["G"], 0)):
+                ctx.fail("kalman_mutates_input", "LinearStateSpace object changed while filtering with several objects", {"object": o, "model": model_json(d)}, None, None)
+    bad = ctx.coq_check("kalman_lazy_stationary_pairs", IMPORTS, STAT_TYPE, STAT_OK, pair_cases, chunk=max(1, len(pair_cases) // 10), preamble=PRE)
+    for i in bad:
+        ctx.mismatch("C12.Model.stationary_K / update fixed point vs lazily read Sigma_infinity/K_infinity (several objects)", pair_meta[i])
+    ok = ("fun c => let '(n, m, k, l, A, G, H, Sg, Kg, j, var, co, tols, innov) := c in "
+          "if innov then list_abs Mabs tols [stationary_innovation_covar n k l G H Sg] co "
+          "else list_abs Mabs tols (stationary_coefficients n k A G Kg j var) co")
+    bad = ctx.coq_check("kalman_stationary_coefficients", IMPORTS,
+                        "nat * nat * nat * nat * Qmat * Qmat * Qmat * Qmat * Qmat * nat * bool * list Qmat * list Q * bool", ok, coef_cases,
+                        chunk=max(1, len(coef_cases) // 6), preamble=PRE)
+    for i in bad:
+        ctx.mismatch("C12.Model.stationary_coefficients / stationary_innovation_covar vs Kalman (several objects)", coef_meta[i])
 
 
 # ------------------------------------------------------------------ LinearStateSpace: moments, impulse, geometric sums
@@ -1054,6 +1208,35 @@ def gen_const_model(rng, nc_kind):
             if all(x == 0 for x in d["C"][i]) and d["A"][i][i] == 1:
                 d["A"][i][i] = Fraction(1, 2)
     d["const_positions"] = str(sorted(pos))
+    d["near"] = "none"
+    return d
+
+
+def add_near_constant(rng, d):
+    """turn one non-constant state into an ALMOST constant one (never constant under the code's exact tests):
+    diagonal 1 -+ 2^-e, the rest of the row zero or tiny, C row zero or tiny; its mu_0 entry is 1. All entries are exact
+    doubles whose squares/sums are exact, so the code's float tests decide as the exact ones."""
+    n, m = d["n"], d["m"]
+    pos = eval(d["const_positions"])
+    cand = [i for i in range(n) if i not in pos]
+    if not cand:
+        return d
+    p = rng.choice(cand)
+    e = rng.choice([17, 17, 20, 24, 30])
+    how = rng.choice(["decay", "decay", "grow", "almost_row", "almost_C"])
+    eps = Fraction(1, 2 ** e)
+    d["A"][p] = [Fraction(0)] * n
+    d["A"][p][p] = 1 + eps if how == "grow" else 1 - eps
+    d["C"][p] = [Fraction(0)] * m
+    if how == "almost_row" and n >= 2:
+        d["A"][p][rng.choice([j for j in range(n) if j != p])] = Fraction(rng.choice([-1, 1]), 2 ** 18)
+    if how == "almost_C":
+        d["C"][p][rng.randrange(m)] = Fraction(rng.choice([-1, 1]), 2 ** 15)
+    d["mu0"][p] = [Fraction(1)]
+    for i in range(n):
+        if i != p and i not in pos and rng.random() < 0.7:
+            d["A"][i][p] = Fraction(rng.randint(-6, 6), 4)
+    d["near"] = "%s:2^-%d" % (how, e)
     return d
 
 
@@ -1097,6 +1280,8 @@ def stationary_dist_checks(ctx, N):
     for ci in range(N):
         kind = ctx.rng.choice(["one", "one", "one", "none", "two"]) if ci >= 3 else ["one", "none", "two"][ci]
         d = gen_const_model(ctx.rng, kind)
+        if kind != "two" and (ci % 2 == 1 or ctx.rng.random() < 0.3):
+            d = add_near_constant(ctx.rng, d)
         with_H = ctx.rng.random() < 0.7
         if with_H and ctx.rng.random() < 0.6:      # square non-diagonal / triangular / symmetric H: H H' is not H * H' elementwise
             d["k"] = max(d["k"], 2); d["l"] = d["k"]
@@ -1110,6 +1295,7 @@ def stationary_dist_checks(ctx, N):
         A, C, G, H = d["A"], d["C"], d["G"], d["H"]
         ctx.case(("stationary_distributions", str(inp)), nontrivial=(kind == "one" and n >= 2))
         ctx.count("stationary_distributions:const=" + kind)
+        ctx.count("stationary_distributions:near_constant=" + d["near"].split(":")[0])
         ctx.count("stationary_distributions:H=" + (d["kindH"] if with_H else "None"))
         try:
             with warnings.catch_warnings():
@@ -1153,7 +1339,8 @@ def stationary_dist_checks(ctx, N):
                 if not (mabs(mu_x, mm(A, fmu), tolr) and mabs(Sx, madd(mm(mm(A, fS), mt(A)), mm(C, mt(C))), tolr)):
                     ctx.fail("lss_stationary_fixed_point", "mu_x != A mu_x or Sigma_x != A Sigma_x A' + CC'", inp,
                              [mu_x.tolist(), Sx.tolist()], None)
-                check_psd(ctx, Sx, inp, "stationary Sigma_x", tol=float(tol))
+                if not d["near"].startswith("grow"):
+                    check_psd(ctx, Sx, inp, "stationary Sigma_x", tol=float(tol))
         cases.append(tup(dims(d), qm(A), qm(C), qm(G), "(Some %s)" % qm(H) if with_H else "None", qm(d["mu0"]), lit, qlit(tol)))
         meta.append((inp, res if isinstance(res, str) else [np.asarray(z).tolist() for z in res]))
     pre = PRE + """
@@ -1182,6 +1369,7 @@ def run(ctx):
     kalman_checks(ctx, 500 if thorough else 120, 12000 if thorough else 3000)
     ops_checks(ctx, 300 if thorough else 60, 12000 if thorough else 3000)
     stationary_checks(ctx, 120 if thorough else 24)
+    multi_object_checks(ctx, 80 if thorough else 16)
     lss_checks(ctx, 400 if thorough else 64)
     sim_checks(ctx, 300 if thorough else 48)
     kernel_checks(ctx, 400 if thorough else 80)
